@@ -234,8 +234,11 @@ def decorate(rng: random.Random, n: int, pairs, *, engine, entry, order="random"
     if thr == "auto":
         r = rng.random()
         ps = sorted({p for _, _, p in edges})
-        if r < 0.25 or not ps:
+        if r < 0.22 or not ps:
             case["thr"] = None
+        elif r < 0.30:
+            # boundary values of both arguments: falsy-but-given (0, 0.0, -0.0), the ends of [0, 1] and 0.5 (= weight 0)
+            case["thr"], case["thr_kind"] = rng.choice([(0, "weight"), (0.0, "weight"), (-0.0, "weight"), (0, "prob"), (0.0, "prob"), (0.5, "prob"), (1.0, "prob"), (1, "prob")])
         elif r < 0.55:
             case["thr"], case["thr_kind"] = rng.choice(ps), "prob"  # exactly on an edge probability
         elif r < 0.8:
@@ -422,7 +425,13 @@ def run(ctx: core.Ctx):
         "node ids map to ranks order-isomorphically (ASCII strings; engine collation = code-point order)",
         "weight thresholds whose probability lies within 1e-12 of an edge probability are excluded (floating point)",
     ]
+    from harness.translate import tarith
+
+    errs = tarith.write({"threshold_args_to_match_prob", "bayes_factor_to_prob", "match_weight_to_bayes_factor"})  # Generated/Arith.lean: the model's threshold conversion is the translated threshold_args_to_match_prob
     ctx.lean = core.lean_check(PROP, ctx.thorough)
+    if errs:
+        ctx.lean.ok = False
+        ctx.lean.problems += ["T-arith: " + e for e in errs]
     drv = core.Driver()
     if ctx.replay:
         import json
